@@ -103,6 +103,12 @@ RAW_GOOD = {
     "lone-surrogate-escape": b'{"jsonrpc":"2.0","id":"m%d","result":{"s":"\\ud83d"}}',
     "huge-exponent": b'{"jsonrpc":"2.0","id":"m%d","result":{"n":1e400,"m":-1E+400}}',
     "lone-surrogate-escape-notif": b'{"jsonrpc":"2.0","method":"notifications/x","params":{"k":%d,"s":"\\udfff x"}}',
+    # a success response whose result is not an object (JSON-RPC allows any value; a void method answers null)
+    "result-null": b'{"jsonrpc":"2.0","id":"m%d","result":null}',
+    "result-zero": b'{"jsonrpc":"2.0","id":"m%d","result":0}',
+    "result-false": b'{"jsonrpc":"2.0","id":"m%d","result":false}',
+    "result-array": b'{"jsonrpc":"2.0","id":"m%d","result":[1,null]}',
+    "result-string": b'{"jsonrpc":"2.0","id":"m%d","result":""}',
 }
 
 
@@ -275,6 +281,8 @@ def apply_cuts(data, cuts):
 def canon(m):
     try:
         d = m.model_dump(exclude_none=True)
+        if isinstance(d, dict) and "method" not in d and "error" not in d and "result" not in d and "id" in d:
+            d["result"] = None          # a response whose result is null: exclude_none dropped the member, not the library
     except Exception:
         d = {"<unexpected>": repr(type(m))}
     return canon_obj(d)
@@ -804,6 +812,47 @@ def tie_real_child(ctx, drv):
 
 
 # --------------------------------------------------------------------------- #
+async def _exited_run(chunks, exited):
+    """The child writes everything and (exited=True) is gone at once: its exit status is already there while the bytes are
+    still in the pipe.  Returns the canonical forms delivered on the main stream."""
+    proc = FakeProcess()
+    with patched_open_process(proc):
+        client = new_client()
+        async with client:
+            if exited:
+                proc.returncode = 0
+            main, _notif, _alive = await feed_and_collect(proc, client, chunks)
+            proc.stdout.close()
+            for _ in range(50):
+                await anyio.sleep(0)
+            main += drain(client._incoming_recv)
+    return [canon(m) for m in main]
+
+
+def tie_exited_child(ctx):
+    """What the child wrote before it exited is delivered like the output of a child that stays (one-shot servers, a crash
+    right after the last answer): same stream, same chunking, exit status present vs absent."""
+    rng = ctx.rng
+    for si in range(ctx.budget(12, 60)):
+        st = random_stream(ctx, rng.choice([3, 8, 30, 120]), 900000 + 1000 * si)
+        data = st["bytes"] + (b"" if st["bytes"].endswith(b"\n") else b"\n")
+        n = len(data)
+        for k in (0, 1, 3, 9, min(n - 1, 64)):
+            cuts = tuple(sorted(rng.sample(range(1, n), k=min(k, n - 1))))
+            chunks = apply_cuts(data, cuts)
+            stays = anyio.run(_exited_run, chunks, False)
+            gone = anyio.run(_exited_run, chunks, True)
+            case = {"stream": data.hex(), "cuts": list(cuts), "child": "exit status already set while its output is still unread"}
+            ctx.case(case, nontrivial=bool(stays))
+            ctx.count("exited-child:chunks=" + ("1" if not cuts else "2-4" if len(cuts) < 4 else ">4"))
+            ctx.spec_total += 1
+            if gone != stays:
+                lost = [x for x in stays if x not in gone]
+                ctx.spec_violation("output-of-exited-child-lost" if len(gone) < len(stays) else "output-of-exited-child-differs",
+                                   case, f"{len(stays)} messages from a child that stays, {len(gone)} once it has exited; "
+                                         f"first missing: {lost[0][:160] if lost else None}")
+
+
 def explore(ctx, drv):
     spec_cache = {}
     tie_codec(ctx, drv)
@@ -834,6 +883,7 @@ def explore(ctx, drv):
         check_stream(ctx, drv, spec_cache, st, chunkings, "seeded-cuts")
     tie_routing(ctx, drv)
     tie_text_chunks(ctx, drv)
+    tie_exited_child(ctx)
     if ctx.thorough:
         tie_real_child(ctx, drv)
     ctx.exhaustive = True
@@ -860,7 +910,8 @@ def run(ctx):
                 "(ASCII, 2/3/4-byte UTF-8, U+0085/2028/2029, escaped \\n \\r, NBSP, C0 separators), LF and CRLF: every "
                 "cut into 1..2 chunks (1..3 thorough); (c) seeded streams of 3..300 lines with seeded cuts incl. one "
                 "byte per chunk; (d) notification-stream capacity scripts; (e) str chunks incl. lone surrogates; "
-                "(f) UTF-8 encode/isspace per code point, decoder on mutated sequences, strip; thorough: (g) a real "
+                "(f) UTF-8 encode/isspace per code point, decoder on mutated sequences, strip; (h) the same streams from a child "
+                "whose exit status is already set while its output is unread; thorough: (g) a real "
                 "child with forced partial os.write calls. Expected sequence = model's candidate lines, each pushed "
                 "through the REAL reader in isolation; spec oracle = extracted main_ok/notif_ok on generator labels. "
                 "exhaustive:true refers to (a) and (b). distinct = distinct (stream, cuts); every case has >= 1 line")
@@ -870,6 +921,13 @@ def run(ctx):
 def replay(ctx, data):
     drv = RawDriver(lib.Driver("C05"))
     case = data.get("case", {})
+    if "child" in case:
+        chunks = apply_cuts(bytes.fromhex(case["stream"]), tuple(case["cuts"]))
+        stays, gone = anyio.run(_exited_run, chunks, False), anyio.run(_exited_run, chunks, True)
+        print(len(stays), "messages delivered from a child that stays,", len(gone), "once its exit status is set")
+        if stays != gone:
+            print("REPRODUCED", data.get("class"))
+        return 1 if stays != gone else 0
     if "stream" not in case or "labels" not in case:
         print("replay supports (stream, cuts, labels) cases; re-run ./check C05 with seed", data.get("seed"))
         return 0
